@@ -727,7 +727,9 @@ def setup():
     bad = 0
     for f in sorted(os.listdir(SPEC)):
         if f.endswith(".tla"):
-            p = subprocess.run(["java", "-cp", JAR, "tla2sany.SANY", f], cwd=SPEC, stdout=subprocess.PIPE, stderr=subprocess.STDOUT, text=True)
+            # the proof modules extend TLAPS.tla / NaturalsInduction.tla, which live in tlapm's library, not in tla2tools
+            lib = ["-DTLA-Library=/opt/veriftools/tlapm/lib/tlapm/stdlib"] if f.endswith("Proof.tla") else []
+            p = subprocess.run(["java"] + lib + ["-cp", JAR, "tla2sany.SANY", f], cwd=SPEC, stdout=subprocess.PIPE, stderr=subprocess.STDOUT, text=True)
             if p.returncode != 0 or "Semantic errors" in p.stdout or "Parse Error" in p.stdout or "Fatal errors" in p.stdout:
                 log("SANY failed on %s:\n%s" % (f, p.stdout[-1500:]))
                 bad += 1
